@@ -522,6 +522,32 @@ func c17Footprint(chk *fw.Check, name string, doc []byte, n int, dir string) int
 	return g
 }
 
+func c17DefaultStorage(chk *fw.Check) (kind string) {
+	p := world.Std()
+	seqWorld(func() {
+		net := world.NewNet()
+		net.Serve(urlA, "doc", world.SimpleCRL(p.CA, 1, 901, 902, 903).DER())
+		dir := FreshDir("c17d")
+		defer os.RemoveAll(dir)
+		files := FreshDir("c17df")
+		defer os.RemoveAll(files)
+		w := NewTW(TWOpt{Mode: "crl_only", Net: net, CRL: &config.CRLConfig{WorkDir: dir, CRLUrls: []string{urlA}, TrustedSignatureCertsFiles: []string{WritePEM(files, "ca.pem", p.CA.Cert)}}})
+		if err := w.Provision(); err != nil {
+			chk.Violation("C17|harness|default-storage", "Provision: "+err.Error(), nil)
+			return
+		}
+		vsched.Drain()
+		kind = fmt.Sprintf("%T", w.V.VerifCRLChecker().VerifRepository().Factory)
+		ids, _, _ := ListDir(dir)
+		if !strings.Contains(kind, "LevelDb") || len(ids) == 0 {
+			chk.Violation("C17|default-storage-is-not-disk", fmt.Sprintf("a crl_config without storage_type keeps its CRLs in %s (store directories in the work_dir: %v); the documented default, the one the memory bound is promised for, is disk", kind, ids), nil)
+		}
+		w.Cleanup()
+		vsched.Drain()
+	})
+	return
+}
+
 // RunC17 is the entry point of the C17 check.
 func RunC17(tier string, args []string) int {
 	if len(args) > 1 && args[0] == "footprint" {
@@ -622,7 +648,14 @@ func RunC17(tier string, args []string) int {
 		evals++
 		distinct++
 	}
+	// the bound is promised for disk storage, and disk storage is what a configuration gets which does not name a
+	// storage type: the whole module, provisioned from a crl_config without storage_type, keeps its CRLs in a LevelDB
+	// directory below the work_dir
+	defaultStorage := c17DefaultStorage(chk)
+	evals++
+	distinct++
 	cov := fw.Coverage{
+		"storage_of_a_configuration_without_storage_type": defaultStorage,
 		"evaluations":                                   evals,
 		"distinct_nontrivial":                           distinct,
 		"rule":                                          fmt.Sprintf("entry counts: every N in [0,256] and N = 2^k for k = 9..%d (DER, PEM for selected N) through the real reader with a discarding processor; transfer sizes %v bytes via URL download and file copy; whole disk path with N in %v. Non-trivial = N > 1 (the loop iterates).", maxK, sizes, diskN),
